@@ -24,6 +24,23 @@ def run(cmd, cwd, timeout=900, env=None):
     except subprocess.TimeoutExpired as e:
         return 124, (e.stdout or "") + "\nTIMEOUT"
 
+def kill_leftovers(*dirs):
+    """Kills processes still running from inside a scratch copy (a unit test of a patched copy may
+    leave its daemon behind, which would then hold the test's TCP port for every later run)."""
+    for pid in os.listdir("/proc"):
+        if not pid.isdigit():
+            continue
+        try:
+            cwd = os.readlink("/proc/%s/cwd" % pid)
+        except OSError:
+            continue
+        cwd = cwd.replace(" (deleted)", "")
+        if any(cwd == d or cwd.startswith(d + "/") for d in dirs):
+            try:
+                os.kill(int(pid), 9)
+            except OSError:
+                pass
+
 def copy_repo(dst):
     shutil.rmtree(dst, ignore_errors=True)
     shutil.copytree("/repo", dst, ignore=shutil.ignore_patterns(".git"))
@@ -89,6 +106,7 @@ def main():
     res["demo_passes_clean"] = (rc == 0)
     if rc != 0:
         res["demo_clean_output"] = (out or "")[-800:]
+    kill_leftovers(clean)
     shutil.rmtree(clean, ignore_errors=True)
     copy_repo(patched)
     rc, out = run(["patch", "-p1", "--no-backup-if-mismatch", "-i", os.path.join(vdir, "patch.diff")], patched)
@@ -114,6 +132,7 @@ def main():
     res["check_exit"] = rc
     res["check_keys"] = [l.strip()[5:205] for l in out.splitlines() if l.strip().startswith("key:")][:3]
     res["check_summary"] = [l[:200] for l in out.splitlines() if l.startswith("[" + check_pid) or l.startswith("INCONCLUSIVE") or l.startswith("BROKEN")][:3]
+    kill_leftovers(clean, patched)
     if not keep:
         shutil.rmtree(patched, ignore_errors=True)
         suf = hashlib.md5((patched + "\n").encode()).hexdigest()[:10]
